@@ -3,21 +3,27 @@ import Nstd.Callback.Model
 import Nstd.Callback.Spec
 /-
   Line protocol of the Callback area (property C12).  Universe of the harness: 3 emitters
-  with 3 signals each, 3 listeners with 2 slots each, script cells (listener, slot,
-  invocation# < 8) of at most 8 actions.
+  with 9 signals each (signal `g` has `g` parameters: it goes through the arity-`g` overloads of
+  `emit` / `connect` / `disconnect`), 3 listeners with 2 slots each, script cells (listener, slot,
+  invocation# < 8) of at most 8 actions.  An emission carries one number `v < 10`: the harness passes
+  `(v, v+1, …, v+g-1)`, the slot checks the tuple and logs `v` (`v` must be 0 for signal 0).
 
     reset
     script <l> <s> <k> <action>*          body of slot s of listener l at its k-th invocation
-    connect <e> <g> <l> <s> | disconnect <e> <g> <l> <s> | emit <e> <g> | dell <l> | dele <e>
+    connect <e> <g> <l> <s> | disconnect <e> <g> <l> <s> | emit <e> <g> <v> | dell <l> | dele <e>
     newl <l> | newe <e>                   a destroyed object is replaced by a new one
     end                                   destroys the remaining listeners, then the remaining emitters
+    refargs <v>                           fixed scenario with reference parameters (not modelled: the line is
+                                          computed by `refArgs` below from the C++ rules for references)
 
-  script actions: `cEGLS` connect, `dEGLS` disconnect, `mEG` emit, `Ll` delete listener,
+  script actions: `cEGLS` connect, `dEGLS` disconnect, `mEGV` emit, `Ll` delete listener,
   `Ee` delete emitter, `nl` new listener, `we` new emitter (single digits).
 
   Observation after a top-level action: the invocation log of that action and the
   bookkeeping of both sides,
-    log l.s l.s ... | E0:g0=<slots> g1=<slots> E1:x ... | L0:e0=<pairs> e1=.. e2=.. L1:x ...
+    log <ev> <ev> ... | E0:g0=<slots> g4=<slots> E1:x E2:- ... | L0:e0=<pairs> e1=.. e2=.. L1:x ...
+  `<ev>` = `l.s:v` slot s of listener l invoked with argument v, `<e.g:v` start of an `emit` call, `>` its return;
+  only the signals with entries (or a set flag) are listed, `-` when there is none;
   `<slots>` = `-` or comma separated `l.s` (+ `n`/`d` when the state is connecting /
   disconnected) + `!` when the dirty flag or the activation pointer is set; `<pairs>` = `-` or
   comma separated `g.s`; `x` = destroyed.  The driver also runs the specification machine on the
@@ -28,7 +34,8 @@ open Nstd.Common
 namespace Nstd.Callback
 
 def NE : Nat := 3
-def NG : Nat := 3
+def NG : Nat := 9
+def NV : Nat := 10
 def NL : Nat := 3
 def NS : Nat := 2
 def MAXK : Nat := 8
@@ -50,7 +57,10 @@ def parseAction (t : String) : Option Action :=
   match t.toList with
   | ['c', e, g, l, s] => do pure (.connect (← digit e NE) (← digit g NG) (← digit l NL) (← digit s NS))
   | ['d', e, g, l, s] => do pure (.disconnect (← digit e NE) (← digit g NG) (← digit l NL) (← digit s NS))
-  | ['m', e, g] => do pure (.emit (← digit e NE) (← digit g NG))
+  | ['m', e, g, v] => do
+    let g ← digit g NG
+    let v ← digit v NV
+    if g = 0 ∧ v ≠ 0 then none else pure (.emit (← digit e NE) g v)
   | ['L', l] => do pure (.delL (← digit l NL))
   | ['E', e] => do pure (.delE (← digit e NE))
   | ['n', l] => do pure (.newL (← digit l NL))
@@ -66,7 +76,10 @@ def parseTop (ws : List String) : Option Action :=
   match ws with
   | ["connect", e, g, l, s] => do pure (.connect (← num e NE) (← num g NG) (← num l NL) (← num s NS))
   | ["disconnect", e, g, l, s] => do pure (.disconnect (← num e NE) (← num g NG) (← num l NL) (← num s NS))
-  | ["emit", e, g] => do pure (.emit (← num e NE) (← num g NG))
+  | ["emit", e, g, v] => do
+    let g ← num g NG
+    let v ← num v NV
+    if g = 0 ∧ v ≠ 0 then none else pure (.emit (← num e NE) g v)
   | ["dell", l] => do pure (.delL (← num l NL))
   | ["dele", e] => do pure (.delE (← num e NE))
   | ["newl", l] => do pure (.newL (← num l NL))
@@ -87,7 +100,11 @@ def emitterStr (r : Run State) (e : Nat) : String :=
   s!"E{e}:" ++
     match r.m.emitters (r.emId e) with
     | none => "x"
-    | some em => " ".intercalate ((List.range NG).map (fun g => s!"g{g}=" ++ slotsStr r.lIdx (em.sig g)))
+    | some em =>
+      let gs := (List.range NG).filter (fun g => match em.sig g with
+        | none => false
+        | some d => !d.slots.isEmpty || d.dirty || d.activation.isSome)
+      if gs.isEmpty then "-" else " ".intercalate (gs.map (fun g => s!"g{g}=" ++ slotsStr r.lIdx (em.sig g)))
 
 def pairsStr (l : List (Nat × Nat)) : String :=
   if l.isEmpty then "-" else ",".intercalate (l.map (fun p => s!"{p.1}.{p.2}"))
@@ -98,8 +115,21 @@ def listenerStr (r : Run State) (l : Nat) : String :=
     | none => "x"
     | some li => " ".intercalate ((List.range NE).map (fun e => s!"e{e}=" ++ pairsStr (li.sigs (r.emId e))))
 
-def logStr (log : List (Nat × Nat)) : String :=
-  "log" ++ String.join (log.reverse.map (fun p => s!" {p.1}.{p.2}"))
+def evStr : Ev → String
+  | .call l s v => s!" {l}.{s}:{v}"
+  | .emitBegin e g v => s!" <{e}.{g}:{v}"
+  | .emitEnd => " >"
+
+def logStr (log : List Ev) : String :=
+  "log" ++ String.join (log.reverse.map evStr)
+
+/-- The `refargs` scenario of the harness (reference parameters; NOT part of the model, written
+    from the C++ rules): signal `(int& a, const int& b, int* c)` emitted with `a = v`, `b = 2`,
+    `*c = 0` to three connected slots; each slot logs `a:b:*c`, then does `a += 1; *c += b`.  All
+    slots share the caller's objects, which the caller reads afterwards. -/
+def refArgs (v : Nat) : String :=
+  "ref" ++ String.join ((List.range 3).map (fun i => s!" {v + i}:2:{2 * i}")) ++ s!" | {v + 3} 6"
+
 
 /-- a test of theorem `listener_side_exact`: some listener-side list differs from the
     specification's view -/
@@ -129,6 +159,10 @@ def stepLine (d : DState) (ws : List String) : DState × String :=
         ({ d with table := ((l, s, k), as) :: d.table }, "ok")
       else (d, "bad-op")
     | _, _, _, _ => (d, "bad-op")
+  | ["refargs", v] =>
+    match num v NV with
+    | some v => (d, refArgs v)
+    | none => (d, "bad-op")
   | _ =>
     -- `end`: the harness destroys whatever is left (listeners first, then emitters)
     let top : Option (List Action) :=
